@@ -79,6 +79,9 @@ def run(ck: Checker, prog: Program, tier: str):
         ck.guard(_r4, ck, f, mask_var, pass_var)
     ck.guard(_r5_r6_sta, ck, prog)
     ck.guard(_r5_r6_max, ck, prog)
+    # "ends with accept masks equal to that selection": assigning a mask stores that mask
+    from . import statscommon as _S
+    ck.guard(_S.check_mask_properties, ck, prog, "C13.R3")
 
 
 # --------------------------------------------------------------------------- R3
